@@ -2508,7 +2508,12 @@ fn generate_expression(
                     match input_tyl {
                         ir::TypeLayer::Vector(_, in_dim) => {
                             let swizzle = match unmod_tyl {
-                                ir::TypeLayer::Scalar(_) => "x",
+                                // A vector of one component is a scalar in Metal - as the target and as the input
+                                ir::TypeLayer::Scalar(_) | ir::TypeLayer::Vector(_, 1)
+                                    if 1 < in_dim =>
+                                {
+                                    "x"
+                                }
                                 ir::TypeLayer::Vector(_, 2) if 2 < in_dim => "xy",
                                 ir::TypeLayer::Vector(_, 3) if 3 < in_dim => "xyz",
                                 _ => return expr,
